@@ -36,32 +36,48 @@ Conforms(e, r) ==
   /\ e.o.ok
   /\ IF r.fuzzy \/ e.o.rounded THEN Dev_F32Tolerance(e.o.cmds, r.cmds) ELSE e.o.cmds = r.cmds
 
+\* what kind of deviation (part of the violation key)
+Class(e, r) ==
+  IF ~e.o.ok THEN "err:" \o e.o.why
+  ELSE IF r.cmds = <<>> /\ e.o.cmds = <<[c |-> "Z", p |-> <<>>]>> THEN "close-without-move"
+  ELSE IF Len(e.o.cmds) # Len(r.cmds) THEN "command-count"
+  ELSE IF \E k \in 1 .. Len(r.cmds) : e.o.cmds[k].c # r.cmds[k].c THEN "command-kind"
+  ELSE "coordinates"
+
+JudgeStats(e, s1) ==
+  /\ stats' = s1
+  /\ IF l = Len(Rec) THEN PrintT(<<"STATS", ToJson(s1)>>) ELSE TRUE
+
 Bump(s, f) == [s EXCEPT ![f] = @ + 1]
 
 TInit == l = 1 /\ stats = [judged |-> 0, exact |-> 0, fuzzy |-> 0, notwf |-> 0, steps |-> 0, cmds |-> 0,
-                           withsubrs |-> 0, withmask |-> 0, withwidth |-> 0, deep |-> 0, blends |-> 0]
+                           withsubrs |-> 0, withmask |-> 0, withwidth |-> 0, deep |-> 0, blends |-> 0, empty |-> 0]
+
+\* r is an operator parameter so that the interpretation is evaluated once per event
+Stats(r) ==
+  IF r.halt = "done"
+  THEN LET a == Bump(Bump(stats, "judged"), IF r.fuzzy THEN "fuzzy" ELSE "exact")
+           b == IF r.maxDepth > 0 THEN Bump(a, "withsubrs") ELSE a
+           c == IF r.nStems > 0 THEN Bump(b, "withmask") ELSE b
+           d == IF r.width # <<>> THEN Bump(c, "withwidth") ELSE c
+           f == IF r.maxDepth > 2 THEN Bump(d, "deep") ELSE d
+           g == IF r.seenBlend THEN Bump(f, "blends") ELSE f
+           h == IF r.cmds = <<>> THEN Bump(g, "empty") ELSE g IN
+       [h EXCEPT !.cmds = @ + Len(r.cmds), !.steps = @ + r.steps]
+  ELSE Bump(stats, "notwf")
+
+Judge(e, r) ==
+  /\ JudgeStats(e, Stats(r))
+  /\ IF r.halt = "done"
+     THEN IF Conforms(e, r) THEN TRUE
+          ELSE PrintT(<<"MISMATCH", ToJson([i |-> e.i, case |-> e.case, fuzzy |-> r.fuzzy,
+                                            class |-> Class(e, r), want |-> Outcome(r), got |-> e.o])>>)
+     ELSE PrintT(<<"NOTWF", ToJson([i |-> e.i, case |-> e.case, why |-> r.why, gotok |-> e.o.ok])>>)
 
 TNext ==
   /\ l <= Len(Rec)
   /\ l' = l + 1
-  /\ LET e == Rec[l]
-         r == Interp(FCof(e.a), e.a.code)
-         s1 == IF r.halt = "done"
-               THEN LET a == Bump(Bump(stats, "judged"), IF r.fuzzy THEN "fuzzy" ELSE "exact")
-                        b == IF r.maxDepth > 0 THEN Bump(a, "withsubrs") ELSE a
-                        c == IF r.nStems > 0 THEN Bump(b, "withmask") ELSE b
-                        d == IF r.width # <<>> THEN Bump(c, "withwidth") ELSE c
-                        f == IF r.maxDepth > 2 THEN Bump(d, "deep") ELSE d
-                        g == IF r.seenBlend THEN Bump(f, "blends") ELSE f IN
-                    [g EXCEPT !.cmds = @ + Len(r.cmds)]
-               ELSE Bump(stats, "notwf") IN
-     /\ stats' = s1
-     /\ IF r.halt = "done"
-        THEN IF Conforms(e, r) THEN TRUE
-             ELSE PrintT(<<"MISMATCH", ToJson([i |-> e.i, case |-> e.case, fuzzy |-> r.fuzzy,
-                                               want |-> Outcome(r), got |-> e.o])>>)
-        ELSE PrintT(<<"NOTWF", ToJson([i |-> e.i, case |-> e.case, why |-> r.why, gotok |-> e.o.ok])>>)
-     /\ IF l = Len(Rec) THEN PrintT(<<"STATS", ToJson(s1)>>) ELSE TRUE
+  /\ Judge(Rec[l], Interp(FCof(Rec[l].a), Rec[l].a.code))
 
 TSpec == TInit /\ [][TNext]_tvars
 
